@@ -213,6 +213,14 @@ def run(ctx, res):
         if len(v) != 1:
             res.errors.append("anchor %s: %r" % (k, v))
             return
+    # time stamps: the message carries bus.cpu_state_sum, which is non-decreasing iff only the run loop's accounting writes it (rules/c13)
+    from rules import c13 as c13mod
+    tw_ = c13mod.timebase_writers(facts)
+    res.ob(not [x for x in tw_ if x[2] == "cpu_state_sum"])
+    for ent_, w_, fld_ in tw_:
+        if fld_ == "cpu_state_sum":
+            res.finding("timestamp|bus-clock-writer|%s" % w_.split("::")[-1], "%s writes bus.cpu_state_sum (the time stamp of ioport messages) outside the run loop's accounting, under %s: "
+                        "the next accounting step overwrites it and the time stamps can decrease" % (w_, ent_.split("::")[-1]))
     routed = dispatch(facts, res)
     res.inventory["routed_addresses"] = {k: (["0x%x" % a for a in v] if v is not None else "more than 64 / undecided") for k, v in routed.items()}
     # ops "write:ddr" / "write:dr" are the COMPOSED rule: Bus::write itself (whatever it calls - handlers by address, by port number,
